@@ -129,6 +129,23 @@ func judgeC16(rep *lib.Report, c *lib.Ctx, ln *printerLine, res *realResult, kas
 			rep.Violate("routes:fprint-writes", fmt.Sprintf("%s: Fprint delivered the text through WriteString (%d calls), not through a single Write", desc, w.strings), kase)
 		}
 	}
+	{
+		// a redact.StringBuilder is a writer like any other: it receives the text through its (unsafe) Write
+		var w1, w2 redact.StringBuilder
+		guard("Fprint(*StringBuilder)", func() []byte {
+			if printf {
+				redact.Fprintf(&w1, format, args...)
+			} else {
+				redact.Fprint(&w1, args...)
+			}
+			w2.Write(direct)
+			rep.AddEval(1)
+			if w1.RedactableString() != w2.RedactableString() {
+				rep.Violate("routes:fprint-writes", fmt.Sprintf("%s: Fprint into a StringBuilder leaves %q, one Write of the text leaves %q", desc, w1.RedactableString(), w2.RedactableString()), kase)
+			}
+			return nil
+		})
+	}
 	// builder, Sprintfn, inside SafeFormat: equal up to merging of adjacent envelopes
 	routes := []struct {
 		name string
